@@ -331,6 +331,11 @@ def write_evidence(mod, desc, st, tier, seed, t0, capped, violations, known=(), 
     os.makedirs(d, exist_ok=True)
     with open(os.path.join(d, mod.PROP + ".json"), "w") as f:
         json.dump(doc, f, indent=1, default=str)
+    # evidence/<id>.json describes the LAST run; a copy per tier is kept next to it so that a quick run does not wipe the
+    # record of the last thorough one
+    os.makedirs(os.path.join(d, "by_tier"), exist_ok=True)
+    with open(os.path.join(d, "by_tier", f"{mod.PROP}.{tier}.json"), "w") as f:
+        json.dump(doc, f, indent=1, default=str)
     return st.n_nontrivial() >= desc.get("min_nontrivial", 2)
 
 
